@@ -147,6 +147,9 @@ impl Prop for C14 {
     fn fuzz_target(&self) -> Option<&'static str> {
         Some("fz_choices")
     }
+    fn fuzz_runs(&self) -> u64 {
+        15000
+    }
     fn stream_len(&self, _tier: Tier) -> usize {
         1100
     }
